@@ -89,6 +89,7 @@ func (l *Limiter) Run(input interface{}) interface{} {
 	l.RUnlock()
 	if !ok {
 		// Slow path, must initialize task struct under global write lock.
+		verifYield("limiter.beforeSlowPath", input)
 		l.Lock()
 		t, ok = l.tasks[input]
 		if !ok {
